@@ -154,6 +154,8 @@ def run_total():
 
 
 def run_frame():
+    from .common import defaults_facts
+    defaults_facts(['extrapolation.dea3'])
     m = mods(); ex = m['ex']
     with installed(ex):
         for shape in [(1,), (3,), (2, 2)]:
